@@ -59,6 +59,65 @@ macro_rules! structure_harness {
     };
 }
 
+// `rlp::list` as a recorder as well (its own contract -- header(total length) || items in order -- is decided for
+// arbitrary item contents in c07_list_* / c07_iter_*): logs the first byte and the length of every item it is
+// handed and returns the one-byte placeholder 0xEE. With it the typed encoders reduce to "which leaves, in
+// which order, are put into ONE list, and what is prepended".
+const MAXITEMS: usize = 14;
+static mut LIST_CALLS: usize = 0;
+static mut LIST_N: usize = 0;
+static mut LIST_FIRST: [u8; MAXITEMS] = [0; MAXITEMS];
+static mut LIST_LEN: [usize; MAXITEMS] = [0; MAXITEMS];
+fn list_stub(items: &[&[u8]]) -> Vec<u8> {
+    unsafe {
+        LIST_CALLS += 1;
+        assert!(items.len() <= MAXITEMS, "more list items than any transaction type has");
+        LIST_N = items.len();
+        let mut i = 0;
+        while i < MAXITEMS {
+            if i < items.len() {
+                LIST_LEN[i] = items[i].len();
+                LIST_FIRST[i] = if items[i].len() > 0 { items[i][0] } else { 0 };
+            }
+            i += 1;
+        }
+        vec![0xee]
+    }
+}
+macro_rules! structure_list_harness {
+    ($(#[$m:meta])* fn $name:ident() $body:block) => {
+        structure_harness! {
+            #[kani::stub(crate::transaction::rlp::list, list_stub)]
+            $(#[$m])*
+            fn $name() $body
+        }
+    };
+}
+/// Checks the leaf log against `items` and the single `rlp::list` call against the placeholders in order.
+fn expect_list_encoding(items: &[Item], ty: Option<u8>, out: &[u8]) {
+    unsafe {
+        assert!(LOG_N == items.len(), "number of encoded fields");
+        let mut i = 0;
+        while i < items.len() {
+            assert!(LOG_KIND[i] == items[i].kind, "field kind (integer / byte string / access list)");
+            assert!(LOG_LEN[i] == items[i].len, "field length");
+            assert!(eq32(&LOG_VAL[i], &items[i].val), "field value or field order differs");
+            i += 1;
+        }
+        assert!(LIST_CALLS == 1, "the payload is one RLP list");
+        assert!(LIST_N == items.len(), "number of list items");
+        let mut i = 0;
+        while i < items.len() {
+            assert!(LIST_LEN[i] == 1 && LIST_FIRST[i] == (i + 1) as u8, "fields are not put into the list in order");
+            i += 1;
+        }
+    }
+    match ty {
+        Some(t) => assert!(out.len() == 2 && out[0] == t && out[1] == 0xee, "type byte || list"),
+        None => assert!(out.len() == 1 && out[0] == 0xee, "bare list"),
+    }
+}
+
 /// What the specification expects one list item to be.
 #[derive(Clone, Copy)]
 struct Item {
@@ -221,8 +280,16 @@ fn check_eip2930(signed: bool, nal: usize) {
             items[10] = u(U256::from_be_bytes(S));
             n = 11;
         }
-        expect_encoding(0, &items[..n], Some(0x01), &out);
+        if unsafe { LIST_CALLS } > 0 {
+            expect_list_encoding(&items[..n], Some(0x01), &out);
+        } else {
+            expect_encoding(0, &items[..n], Some(0x01), &out);
+        }
 }
+structure_list_harness! { #[kani::unwind(15)] fn c06l_eip2930_unsigned() { check_eip2930(false, 1) } }
+structure_list_harness! { #[kani::unwind(15)] fn c06l_eip2930_signed() { check_eip2930(true, 1) } }
+structure_list_harness! { #[kani::unwind(15)] fn c06l_eip1559_unsigned() { check_eip1559(false, 1) } }
+structure_list_harness! { #[kani::unwind(15)] fn c06l_eip1559_signed() { check_eip1559(true, 1) } }
 structure_harness! { #[kani::unwind(15)] fn c06_eip2930_unsigned() { check_eip2930(false, 1) } }
 structure_harness! { #[kani::unwind(34)] fn c06_eip2930_signed() { check_eip2930(true, 0) } }
 
@@ -259,7 +326,11 @@ fn check_eip1559(signed: bool, nal: usize) {
             items[11] = u(U256::from_be_bytes(S));
             n = 12;
         }
-        expect_encoding(0, &items[..n], Some(0x02), &out);
+        if unsafe { LIST_CALLS } > 0 {
+            expect_list_encoding(&items[..n], Some(0x02), &out);
+        } else {
+            expect_encoding(0, &items[..n], Some(0x02), &out);
+        }
 }
 structure_harness! { #[kani::unwind(15)] fn c06_eip1559_unsigned() { check_eip1559(false, 1) } }
 structure_harness! { #[kani::unwind(34)] fn c06_eip1559_signed() { check_eip1559(true, 0) } }
@@ -324,6 +395,140 @@ structure_harness! { #[kani::unwind(15)] fn c06_signing_message_legacy_nochain()
 structure_harness! { #[kani::unwind(15)] fn c06_signing_message_legacy_chain() { check_signing_message(0, true) } }
 structure_harness! { #[kani::unwind(15)] fn c06_signing_message_eip2930() { check_signing_message(1, true) } }
 structure_harness! { #[kani::unwind(15)] fn c06_signing_message_eip1559() { check_signing_message(2, true) } }
+
+// The same for the typed kinds with `rlp::list` as a recorder: the digest is one Keccak over exactly what the
+// per-type encoder returns for `None` (type byte || the list), and the list is built from the same leaves.
+fn check_signing_message_list(kind: u8) {
+        let data: [u8; 2] = kani::any();
+        let chain = any_u256();
+        let tx = match kind {
+            1 => Transaction::Eip2930(Eip2930Transaction {
+                chain_id: chain, nonce: any_u256(), gas_price: any_u256(), gas: any_u256(), to: any_to(),
+                value: any_u256(), data: data.to_vec(), access_list: AccessList(vec![]),
+            }),
+            _ => Transaction::Eip1559(Eip1559Transaction {
+                chain_id: chain, nonce: any_u256(), max_priority_fee_per_gas: any_u256(), max_fee_per_gas: any_u256(),
+                gas: any_u256(), to: any_to(), value: any_u256(), data: data.to_vec(), access_list: AccessList(vec![]),
+            }),
+        };
+        unsafe { LOG_N = 0; LIST_CALLS = 0; }
+        let unsigned = match &tx {
+            Transaction::Legacy(t) => t.rlp_encode(None),
+            Transaction::Eip2930(t) => t.rlp_encode(None),
+            Transaction::Eip1559(t) => t.rlp_encode(None),
+        };
+        let fields = unsafe { LOG_N };
+        let digest = tx.signing_message();
+        kani::cover!(true, "reached");
+        if stubs_active() {
+            assert!(digest_calls() == 1, "exactly one Keccak invocation");
+            assert!(unsigned.len() == 2 && unsigned[0] == kind && unsigned[1] == 0xee);
+            digest_expect80(0, &[kind, 0xee], &digest.0);
+            unsafe {
+                assert!(LIST_CALLS == 2 && LIST_N == fields, "the signed payload is one list of the same fields");
+                assert!(LOG_N == 2 * fields);
+                let mut i = 0;
+                while i < fields {
+                    assert!(LIST_LEN[i] == 1 && LIST_FIRST[i] == (fields + i + 1) as u8, "signed payload: field order");
+                    assert!(LOG_KIND[i] == LOG_KIND[fields + i] && LOG_LEN[i] == LOG_LEN[fields + i]);
+                    assert!(eq32(&LOG_VAL[i], &LOG_VAL[fields + i]), "signed payload differs from the unsigned encoding");
+                    i += 1;
+                }
+            }
+        } else {
+            assert!(digest == Digest::of(&unsigned), "signing digest is not Keccak-256 of the unsigned payload");
+        }
+}
+structure_list_harness! { #[kani::unwind(15)] fn c06l_signing_message_eip2930() { check_signing_message_list(1) } }
+structure_list_harness! { #[kani::unwind(15)] fn c06l_signing_message_eip1559() { check_signing_message_list(2) } }
+
+// Transaction::encode(signature) dispatches to the matching per-type encoder with Some(signature): decided as
+// "same leaf log, same list, same output" as the direct call (all three kinds, kind symbolic).
+structure_list_harness! {
+    #[kani::unwind(15)]
+    fn c06l_encode_dispatch() {
+        let kind: u8 = kani::any();
+        kani::assume(kind < 3);
+        let data: [u8; 2] = kani::any();
+        let chain = any_u256();
+        kani::assume(chain < (U256::MAX >> 1) - 18u128);
+        let has_chain: bool = kani::any();
+        let tx = match kind {
+            0 => Transaction::Legacy(LegacyTransaction {
+                nonce: any_u256(), gas_price: any_u256(), gas: any_u256(), to: any_to(), value: any_u256(),
+                data: data.to_vec(), chain_id: if has_chain { Some(chain) } else { None },
+            }),
+            1 => Transaction::Eip2930(Eip2930Transaction {
+                chain_id: chain, nonce: any_u256(), gas_price: any_u256(), gas: any_u256(), to: any_to(),
+                value: any_u256(), data: data.to_vec(), access_list: AccessList(vec![]),
+            }),
+            _ => Transaction::Eip1559(Eip1559Transaction {
+                chain_id: chain, nonce: any_u256(), max_priority_fee_per_gas: any_u256(), max_fee_per_gas: any_u256(),
+                gas: any_u256(), to: any_to(), value: any_u256(), data: data.to_vec(), access_list: AccessList(vec![]),
+            }),
+        };
+        let (sig, _parity) = any_signature(true);
+        let sig = sig.unwrap();
+        unsafe { LOG_N = 0; LIST_CALLS = 0; }
+        let direct = match &tx {
+            Transaction::Legacy(t) => t.rlp_encode(Some(sig)),
+            Transaction::Eip2930(t) => t.rlp_encode(Some(sig)),
+            Transaction::Eip1559(t) => t.rlp_encode(Some(sig)),
+        };
+        let fields = unsafe { LOG_N };
+        let out = tx.encode(sig);
+        kani::cover!(kind == 0, "legacy");
+        kani::cover!(kind == 1, "EIP-2930");
+        kani::cover!(kind == 2, "EIP-1559");
+        assert!(out.len() == direct.len() && out[0] == direct[0], "encode() is not the per-type encoding");
+        assert!(kind == 0 || (out.len() == 2 && out[0] == kind && out[1] == 0xee));
+        unsafe {
+            assert!(LIST_CALLS == 2 && LIST_N == fields && LOG_N == 2 * fields);
+            let mut i = 0;
+            while i < MAXITEMS {
+                if i < fields {
+                    assert!(LOG_KIND[i] == LOG_KIND[fields + i] && LOG_LEN[i] == LOG_LEN[fields + i]);
+                    assert!(eq32(&LOG_VAL[i], &LOG_VAL[fields + i]), "encode() differs from the per-type encoding with the signature");
+                }
+                i += 1;
+            }
+        }
+    }
+}
+
+// Calldata of symbolic length (0..=40 bytes, symbolic content) and an access list of symbolic length through the typed
+// encoders: the leaf recorders see exactly that byte string / that list.
+structure_list_harness! {
+    #[kani::unwind(15)]
+    fn c06l_eip1559_symdata() {
+        let buf: [u8; 40] = kani::any();
+        let dl: usize = kani::any();
+        kani::assume(dl <= 40);
+        let mut data = Vec::with_capacity(40);
+        unsafe { core::ptr::copy_nonoverlapping(buf.as_ptr(), data.as_mut_ptr(), 40); data.set_len(dl); }
+        let nal: usize = kani::any();
+        kani::assume(nal <= 2);
+        let access_list = AccessList(match nal {
+            0 => vec![],
+            1 => vec![(Address([7; 20]), vec![])],
+            _ => vec![(Address([7; 20]), vec![]), (Address([8; 20]), vec![])],
+        });
+        let tx = Eip1559Transaction {
+            chain_id: any_u256(), nonce: any_u256(), max_priority_fee_per_gas: any_u256(), max_fee_per_gas: any_u256(),
+            gas: any_u256(), to: any_to(), value: any_u256(), data, access_list,
+        };
+        let (sig, parity) = any_signature(true);
+        unsafe { LOG_N = 0; LIST_CALLS = 0; }
+        let out = tx.rlp_encode(sig);
+        let items = [u(tx.chain_id), u(tx.nonce), u(tx.max_priority_fee_per_gas), u(tx.max_fee_per_gas), u(tx.gas),
+                     to_item(&tx.to), u(tx.value), b(&buf[..dl]), al(nal), u(U256::new(parity as u128)),
+                     u(U256::from_be_bytes(R)), u(U256::from_be_bytes(S))];
+        kani::cover!(dl == 40 && nal == 2, "forty bytes of calldata, two access list entries");
+        kani::cover!(dl == 0 && nal == 0, "empty calldata, empty access list");
+        kani::cover!(dl == 1, "one byte of calldata");
+        expect_list_encoding(&items, Some(0x02), &out);
+    }
+}
 
 // ---------------------------------------------------------------------------------- access list
 // Real leaf encoders; one query per shape, addresses and slots symbolic.
@@ -410,4 +615,178 @@ alist_harness! {
     c06_alist_1_2 = (1, 2, 0), 8;
     c06_alist_2_1_0 = (2, 1, 0), 8;
     c06_alist_2_2_2 = (2, 2, 2), 14;
+}
+
+// ------------------------------------------------------------------------------------------------
+// Kind selection in `Deserialize for Transaction` (instantiation D = serde_json::Value): the JSON object holds a
+// symbolic subset of seven keys -- the three that select the kind, two ordinary fields and two near misses that
+// differ from a selecting key only in case -- and `serde_json::from_value::<T>` is a recorder that notes WHICH
+// per-kind type it is asked to produce (and that it is handed an object) and fails. EIP-1559 iff a fee-market key is
+// present, else EIP-2930 iff accessList is present, else legacy. Field binding inside each kind is serde-derive's.
+static mut FV_CALLS: usize = 0;
+static mut FV_KIND: u8 = 0;
+static mut FV_OBJECT_LEN: usize = 0;
+fn from_value_stub<T>(value: serde_json::Value) -> core::result::Result<T, serde_json::Error>
+where
+    T: serde::de::DeserializeOwned,
+{
+    let name = core::any::type_name::<T>();
+    unsafe {
+        FV_CALLS += 1;
+        FV_KIND = if name.ends_with("LegacyTransaction") {
+            0
+        } else if name.ends_with("Eip2930Transaction") {
+            1
+        } else if name.ends_with("Eip1559Transaction") {
+            2
+        } else {
+            9
+        };
+        FV_OBJECT_LEN = value.as_object().map_or(usize::MAX, |m| m.len());
+    }
+    core::mem::forget(value);
+    Err(<serde_json::Error as serde::de::Error>::custom("recorder"))
+}
+const KEYS: [&str; 7] = ["MaxFeePerGas", "accessList", "accesslist", "chainId", "maxFeePerGas", "maxPriorityFeePerGas", "nonce"];
+crate::verif_harness_nofmt! {
+    #[kani::stub(serde_json::from_value, from_value_stub)]
+    #[kani::unwind(10)]
+    fn c06_kind_dispatch() {
+        let present: [bool; 7] = kani::any();
+        let mut map = JsonObject::new();
+        let mut n = 0;
+        let mut i = 0;
+        while i < 7 {
+            if present[i] {
+                map.insert(KEYS[i].to_string(), serde_json::Value::Null);
+                n += 1;
+            }
+            i += 1;
+        }
+        let got = Transaction::deserialize(serde_json::Value::Object(map));
+        let expected = if present[4] || present[5] { 2 } else if present[1] { 1 } else { 0 };
+        kani::cover!(expected == 2 && !present[5], "maxFeePerGas alone selects EIP-1559");
+        kani::cover!(expected == 2 && !present[4] && present[1], "maxPriorityFeePerGas alone (with an access list) selects EIP-1559");
+        kani::cover!(expected == 1, "access list without fee-market keys selects EIP-2930");
+        kani::cover!(expected == 0 && present[0] && present[2], "near-miss keys select nothing");
+        unsafe {
+            assert!(FV_CALLS == 1, "exactly one per-kind deserialization");
+            assert!(FV_KIND == expected, "wrong transaction kind selected for this set of keys");
+            assert!(FV_OBJECT_LEN == n, "the per-kind deserializer is not handed the whole object");
+        }
+        assert!(got.is_err(), "an error of the per-kind deserializer was swallowed");
+        core::mem::forget(got);
+    }
+}
+
+// ------------------------------------------------------------------------------------------------
+// Access-list STRUCTURE with the leaves as recorders: `rlp::bytes` logs what it is asked to encode, `rlp::list` logs,
+// per call, the placeholders it is handed and returns a fresh placeholder. Number of entries (0..=2), number of
+// storage keys per entry (0..=2 each), addresses and keys are symbolic. Specification:
+// [[address, [key, ...]], ...] -- per entry one inner list of its keys, one two-item list (address, that list), and one
+// outer list of the entries, everything in order.
+const MAXCALLS: usize = 6;
+static mut L2_CALLS: usize = 0;
+static mut L2_N: [usize; MAXCALLS] = [0; MAXCALLS];
+static mut L2_ITEMS: [[u8; 4]; MAXCALLS] = [[0; 4]; MAXCALLS];
+static mut L2_ONE: [bool; MAXCALLS] = [true; MAXCALLS];
+fn list2_stub(items: &[&[u8]]) -> Vec<u8> {
+    unsafe {
+        let k = L2_CALLS;
+        assert!(k < MAXCALLS, "more lists than an access list of this shape has");
+        assert!(items.len() <= 4, "more items in one list than the harness bound allows");
+        L2_N[k] = items.len();
+        let mut i = 0;
+        while i < 4 {
+            if i < items.len() {
+                L2_ITEMS[k][i] = if items[i].len() > 0 { items[i][0] } else { 0 };
+                if items[i].len() != 1 { L2_ONE[k] = false; }
+            }
+            i += 1;
+        }
+        L2_CALLS = k + 1;
+        vec![0xe0 + k as u8]
+    }
+}
+fn check_alist_structure<const E: usize, const S0: usize, const S1: usize>() {
+        let addrs: [[u8; 20]; 2] = kani::any();
+        let slots: [[[u8; 32]; 2]; 2] = kani::any();
+        let entries: usize = E;
+        let counts: [usize; 2] = [S0, S1];
+        let mut v = Vec::with_capacity(2);
+        let mut e = 0;
+        while e < E {
+            let mut sl = Vec::with_capacity(2);
+            let mut k = 0;
+            while k < counts[e] {
+                sl.push(StorageSlot(slots[e][k]));
+                k += 1;
+            }
+            v.push((Address(addrs[e]), sl));
+            e += 1;
+        }
+        unsafe { LOG_N = 0; L2_CALLS = 0; }
+        let out = AccessList(v).rlp_encode();
+        kani::cover!(true, "reached");
+        unsafe {
+            let mut leaf = 0; // next expected leaf-log index
+            let mut call = 0; // next expected list call
+            let mut entry_ph = [0u8; 2];
+            let mut e = 0;
+            while e < 2 {
+                if e < entries {
+                    // address leaf
+                    assert!(LOG_KIND[leaf] == K_BYTES && LOG_LEN[leaf] == 20, "entry does not start with the 20-byte address");
+                    let mut a32 = [0u8; 32];
+                    copy_bytes(&mut a32, &addrs[e]);
+                    assert!(eq32(&LOG_VAL[leaf], &a32), "address differs / entries out of order");
+                    let addr_ph = (leaf + 1) as u8;
+                    leaf += 1;
+                    // key leaves
+                    let mut key_ph = [0u8; 2];
+                    let mut k = 0;
+                    while k < 2 {
+                        if k < counts[e] {
+                            assert!(LOG_KIND[leaf] == K_BYTES && LOG_LEN[leaf] == 32, "storage key is not a 32-byte string");
+                            assert!(eq32(&LOG_VAL[leaf], &slots[e][k]), "storage key differs / keys out of order");
+                            key_ph[k] = (leaf + 1) as u8;
+                            leaf += 1;
+                        }
+                        k += 1;
+                    }
+                    // inner list of keys
+                    assert!(L2_N[call] == counts[e] && L2_ONE[call], "keys of an entry form one list");
+                    assert!(counts[e] < 1 || L2_ITEMS[call][0] == key_ph[0]);
+                    assert!(counts[e] < 2 || L2_ITEMS[call][1] == key_ph[1]);
+                    let inner_ph = 0xe0 + call as u8;
+                    call += 1;
+                    // entry = [address, keys]
+                    assert!(L2_N[call] == 2 && L2_ONE[call], "an entry is a two-item list");
+                    assert!(L2_ITEMS[call][0] == addr_ph && L2_ITEMS[call][1] == inner_ph, "entry is not [address, [keys]]");
+                    entry_ph[e] = 0xe0 + call as u8;
+                    call += 1;
+                }
+                e += 1;
+            }
+            assert!(LOG_N == leaf, "number of leaves encoded");
+            assert!(L2_CALLS == call + 1, "number of lists built");
+            assert!(L2_N[call] == entries && L2_ONE[call], "the access list is one list of its entries");
+            assert!(entries < 1 || L2_ITEMS[call][0] == entry_ph[0]);
+            assert!(entries < 2 || L2_ITEMS[call][1] == entry_ph[1]);
+            assert!(out.len() == 1 && out[0] == 0xe0 + call as u8, "the outer list is returned");
+        }
+    }
+macro_rules! alist_structure_harness {
+    ($($name:ident = ($e:expr, $s0:expr, $s1:expr);)*) => {$(
+        crate::verif_harness! {
+            #[kani::stub(crate::transaction::rlp::bytes, bytes_stub)]
+            #[kani::stub(crate::transaction::rlp::list, list2_stub)]
+            #[kani::unwind(6)]
+            fn $name() { check_alist_structure::<$e, $s0, $s1>() }
+        }
+    )*};
+}
+alist_structure_harness! {
+    c06a_alist_0_0_0 = (0, 0, 0); c06a_alist_1_0_0 = (1, 0, 0); c06a_alist_1_1_0 = (1, 1, 0); c06a_alist_1_2_0 = (1, 2, 0);
+    c06a_alist_2_1_0 = (2, 1, 0); c06a_alist_2_0_2 = (2, 0, 2); c06a_alist_2_2_2 = (2, 2, 2);
 }
